@@ -31,10 +31,18 @@ def load_corpus() -> List[dict]:
     # seeded changes (written by sub-agents) and refactoring twins are patch files; every directory found is an entry
     import glob
 
+    expectations = {}
+    ep = os.path.join(VERIF, "seeded", "EXPECTATIONS.json")
+    if os.path.exists(ep):
+        expectations = {k: v for k, v in json.load(open(ep)).items() if not k.startswith("_")}
     for d in sorted(glob.glob(os.path.join(VERIF, "seeded", "*", "meta.json"))):
         m = json.load(open(d))
         sid = os.path.basename(os.path.dirname(d))
-        edits.append({"id": sid, "kind": "mutant", "property": m.get("breaks_property") or m.get("property"), "suite": "survives",
+        # documented exceptions: "undecided" = the own check must not pass silently (exit 1 or 2); "silent" = not a
+        # violation the code can show (kept in the corpus as a neutral so that a later rule firing on it is noticed)
+        exp = expectations.get(sid, {}).get("expect")
+        edits.append({"id": sid, "kind": "mutant" if exp is None else ("undecided" if exp == "undecided" else "neutral"),
+                      "property": m.get("breaks_property") or m.get("property"), "suite": "survives",
                       "patch": os.path.join(os.path.dirname(d), "patch.diff"), "note": "seeded: " + m.get("summary", "")[:80]})
     for d in sorted(glob.glob(os.path.join(VERIF, "selftest", "twins", "*", "meta.json"))):
         m = json.load(open(d))
@@ -128,6 +136,9 @@ def slice_for(pid: str, entries: List[dict]) -> List[dict]:
         if e["kind"] == "mutant":
             if pid in expected_fire(e):
                 out.append(e)
+        elif e["kind"] == "undecided":
+            if pid == e.get("property"):
+                out.append(e)
         else:
             out.append(e)
     return out
@@ -157,6 +168,9 @@ def thorough_slice(ctx) -> None:
                 fired += 1
             else:
                 misses.append("%s (%s) did not fire: exit %d %s" % (r["id"], e.get("note", ""), ex, r["results"][pid]["lines"][:1]))
+        elif e["kind"] == "undecided":
+            if ex == 0:
+                misses.append("%s (%s) passes silently: it must at least be declared undecided" % (r["id"], e.get("note", "")))
         else:
             quiet_total += 1
             if ex == 0:
@@ -204,6 +218,13 @@ def main(argv=None) -> int:
         if e["kind"] == "mutant":
             if not set(exp) <= set(fired):
                 status = "MISS"
+        elif e["kind"] == "undecided":
+            own = e.get("property")
+            if own in props and own not in fired and own not in errs:
+                status = "MISS"
+        elif e["kind"] == "neutral" and e["id"] in ("C01_9",):
+            if fired:
+                status = "FALSE-ALARM"  # errors are tolerated for a non-equivalent change
         else:
             if fired or errs:
                 status = "FALSE-ALARM"
